@@ -1945,6 +1945,17 @@ impl StorageEngine {
     }
     
     pub fn setrange(&self, db: DatabaseIndex, key: Key, offset: usize, value: Vec<u8>) -> Result<usize> {
+        // Redis limits string values to 512MB; this also keeps offset + len from overflowing
+        let within_limit = match offset.checked_add(value.len()) {
+            Some(required_len) => required_len <= 512 * 1024 * 1024,
+            None => false,
+        };
+        if !within_limit {
+            return Err(FerrousError::Command(CommandError::Generic(
+                "string exceeds maximum allowed size (512MB)".to_string()
+            )));
+        }
+        
         let shard = self.get_shard(db, &key)?;
         let mut shard_guard = shard.write().unwrap();
         
